@@ -68,6 +68,8 @@ import H8.Props.C01P
 import H8.Props.C08L
 import H8.Props.C08X
 import H8.Props.C07S
+import H8.Props.C02I
+import H8.Props.C20R
 import H8.Props.C20M
 set_option linter.unusedSimpArgs false
 namespace H8.Props.C20X
@@ -132,6 +134,30 @@ for mod, name, i, kind, n, addr, extra, mix in T:
     out += '%s :\n    ChargedAt %d %s %d (%s) %d st\' c ∧ Spec.Form.mix .%s = %s := by\n  refine ⟨?_, rfl⟩\n%s  %s\n\n' % (
         head.replace('theorem ' + name, 'theorem cost_' + name), i, kind, n, addr, ex, name, mix, prefix,
         'cost3_keep' if extra is not None else 'cost2_keep')
+
+# ---- register forms with operand words (C02I: W / L immediates): the charge is the fetch cycles only, looked up in a state
+# with the operating PC and bus of the state after the operand fetch
+T2 = [('C02I', n + '_W_IMM', 2, 's1') for n in ('ADD', 'SUB', 'CMP', 'MOV', 'AND', 'OR', 'XOR')] + \
+     [('C02I', n + '_L_IMM', 3, 's2') for n in ('ADD', 'SUB', 'CMP', 'MOV', 'AND', 'OR', 'XOR')]
+out += "/-! ### W / L immediate forms (`C02I`): two / three fetch cycles, nothing else -/\n\n"
+for mod, name, k, sN in T2:
+    src = open(os.path.join(SRC, mod + '.lean')).read()
+    m = re.search(r'^theorem %s \(.*?\n(?=\n|/--|theorem |end )' % name, src, re.S | re.M)
+    if not m:
+        raise SystemExit('theorem %s not found in %s' % (name, mod))
+    block = m.group(0)
+    head, rest = block.split(' :\n', 1)
+    concl, proof = rest.split(' := by\n', 1)
+    cut = '  have := costI_state h; subst this\n'
+    if cut not in proof:
+        raise SystemExit('%s: cost step not found' % name)
+    prefix = proof[:proof.index(cut)]
+    head = re.sub(r"\(hi'? : Spec\.instrOf [^\n]*? = some i\) ?", '', head)
+    head = re.sub(r'\n\s*\n', '\n', head).replace(' (i : Spec.Instr)', '')
+    prefix = re.sub(r"  rw \[Spec\.instrOf_\w+\] at hi'?; simp only \[Option\.some\.injEq\] at hi'?; subst hi'?\n", '', prefix)
+    prefix = re.sub(r'(?<![\w.])(fetch32_ok|fetch_keeps|x16|x32)\b', r'C02I.\1', prefix)
+    out += '%s :\n    C20R.ChargedI %d %s c ∧ Spec.Form.mix .%s = { i := %d } := by\n  refine ⟨?_, rfl⟩\n%s  have hs := costI_state h; subst hs\n  exact ⟨_, h, rfl, rfl⟩\n\n' % (
+        head.replace('theorem ' + name, 'theorem cost_' + name), k, sN, name, k, prefix)
 out += 'end H8.Props.C20X\n'
 open(OUT, 'w').write(out)
-print('wrote', OUT, len(T), 'theorems')
+print('wrote', OUT, len(T) + len(T2), 'theorems')
